@@ -257,7 +257,6 @@ Proof.
     inversion Hfr as [|? ? Hf Hfr']; subst.
     assert (Hne : fph f <> MustOut) by congruence.
     destruct Hf as [Hf1 _]. destruct (Hf1 Hne) as [Hfr0 Hfj].
-    match goal with H : pev_eqb _ _ && _ = true |- _ => apply andb_true_iff in H; destruct H as [_ Ha] end; bnorm; subst a.
     assert (Hnone : forall y, ~ In (fidx f, y) h).
     { destruct (held_at h (fidx f)) eqn:Eh; [discriminate|]. apply held_at_None; assumption. }
     assert (Hnew : forall j y, In (j, y) h -> fidx f + 1 <= j).
@@ -279,7 +278,6 @@ Proof.
     inversion Hfr as [|? ? Hf Hfr']; subst.
     assert (Hne : fph f <> MustOut) by congruence.
     destruct Hf as [Hf1 _]. destruct (Hf1 Hne) as [Hfr0 Hfj].
-    match goal with H : pev_eqb _ _ && _ = true |- _ => apply andb_true_iff in H; destruct H as [_ Ha] end; bnorm; subst a.
     assert (Hnone : forall y, ~ In (fidx f, y) h).
     { destruct (held_at h (fidx f)) eqn:Eh; [discriminate|]. apply held_at_None; assumption. }
     pose proof (stack_ok_below _ _ Hst Hne) as Hb.
@@ -296,7 +294,6 @@ Proof.
     inversion Hfr as [|? ? Hf Hfr']; subst.
     assert (Hne : fph f <> MustOut) by congruence.
     destruct Hf as [Hf1 _]. destruct (Hf1 Hne) as [Hfr0 Hfj].
-    match goal with H : pev_eqb _ _ && _ = true |- _ => apply andb_true_iff in H; destruct H as [_ Ha] end; bnorm; subst a.
     assert (Hnone : forall y, ~ In (fidx f, y) h).
     { destruct (held_at h (fidx f)) eqn:Eh; [discriminate|]. apply held_at_None; assumption. }
     match goal with H : holds_after _ _ = false |- _ => pose proof (none_after _ _ H) as Haft end.
@@ -313,3 +310,208 @@ Qed.
 
 Lemma struct_reachable n ls s : prun (pinit n) ls = Some s -> struct_ok s.
 Proof. apply (prun_invariant struct_ok); [intros; eapply struct_step; eauto|apply struct_init]. Qed.
+
+(* ------------------------------------------------------------------------------------------- *)
+(* ordering invariant                                                                            *)
+
+Definition oseqs (l : list pev) : list Z := map pseq (filter ordered l).
+
+Lemma oseqs_cons x l : oseqs (x :: l) = if ordered x then pseq x :: oseqs l else oseqs l.
+Proof. unfold oseqs; cbn [filter]. destruct (ordered x); reflexivity. Qed.
+
+Lemma Forall_oseqs (P : Z -> Prop) l :
+  Forall P (oseqs l) <-> forall x, In x l -> ordered x = true -> P (pseq x).
+Proof.
+  unfold oseqs. rewrite Forall_forall. split.
+  - intros H x Hin Ho. apply H. apply in_map. apply filter_In. auto.
+  - intros H z Hz. apply in_map_iff in Hz as [x [<- Hx]]. apply filter_In in Hx as [Hin Ho]. auto.
+Qed.
+
+(* es = events of the stack frames, head first; h = held pairs; o = outs (newest first);
+   lt = seq of the last event taken.
+   All ordered events held are older than all ordered events on the stack; among the held ones the
+   older is further right; on the stack the older is nearer the head; whatever is already out is
+   older than everything still inside. *)
+Record ord_ok (es : list pev) (h : list (Z * pev)) (o : list pev) (lt : Z) : Prop := {
+  oo_held : forall i x j y, In (i, x) h -> In (j, y) h -> ordered x = true -> ordered y = true ->
+                            i < j -> pseq y < pseq x;
+  oo_stack : StronglySorted Z.lt (oseqs es);
+  oo_held_stack : forall j y x, In (j, y) h -> In x es -> ordered y = true -> ordered x = true ->
+                                pseq y < pseq x;
+  oo_outs_held : forall z j y, In z o -> In (j, y) h -> ordered z = true -> ordered y = true ->
+                               pseq z < pseq y;
+  oo_outs_stack : forall z x, In z o -> In x es -> ordered z = true -> ordered x = true -> pseq z < pseq x;
+  oo_outs : StronglySorted Z.gt (oseqs o);
+  oo_lt_outs : forall x, In x o -> ordered x = true -> pseq x <= lt;
+  oo_lt_stack : forall x, In x es -> ordered x = true -> pseq x <= lt;
+  oo_lt_held : forall j y, In (j, y) h -> ordered y = true -> pseq y <= lt
+}.
+
+Lemma ord_push_unordered e es h o lt : ordered e = false -> ord_ok es h o lt -> ord_ok (e :: es) h o lt.
+Proof.
+  intros He [H1 H2 H3 H4 H5 H6 H7 H8 H9]. split; auto.
+  - rewrite oseqs_cons, He. exact H2.
+  - intros j y x Hy [<-|Hx] Hoy Hox; [congruence|eauto].
+  - intros z x Hz [<-|Hx] Hoz Hox; [congruence|eauto].
+  - intros x [<-|Hx] Hox; [congruence|eauto].
+Qed.
+
+Lemma ord_pop x es h o lt : ord_ok (x :: es) h o lt -> ord_ok es h o lt.
+Proof.
+  intros [H1 H2 H3 H4 H5 H6 H7 H8 H9]. split; auto.
+  - rewrite oseqs_cons in H2. destruct (ordered x); [inversion H2; assumption|exact H2].
+  - intros j y x' Hy Hx. apply (H3 j y x' Hy). right; exact Hx.
+  - intros z x' Hz Hx. apply (H5 z x' Hz). right; exact Hx.
+  - intros x' Hx. apply H8. right; exact Hx.
+Qed.
+
+Lemma ord_head_lt x es h o lt : ord_ok (x :: es) h o lt -> ordered x = true ->
+  forall x', In x' es -> ordered x' = true -> pseq x < pseq x'.
+Proof.
+  intros [_ H2 _ _ _ _ _ _ _] Hox. rewrite oseqs_cons, Hox in H2. inversion H2 as [|? ? _ Hall]; subst.
+  apply (proj1 (Forall_oseqs _ _) Hall).
+Qed.
+
+Lemma ord_take e h o lt : lt < pseq e -> ord_ok [] h o lt -> ord_ok [e] h o (pseq e).
+Proof.
+  intros Hlt [H1 H2 H3 H4 H5 H6 H7 H8 H9]. split; auto.
+  - rewrite oseqs_cons. destruct (ordered e); cbn; repeat constructor.
+  - intros j y x Hy [<-|[]] Hoy Hox. specialize (H9 j y Hy Hoy). lia.
+  - intros z x Hz [<-|[]] Hoz Hox. specialize (H7 z Hz Hoz). lia.
+  - intros x Hx Hox. specialize (H7 x Hx Hox). lia.
+  - intros x [<-|[]] Hox. lia.
+  - intros j y Hy Hoy. specialize (H9 j y Hy Hoy). lia.
+Qed.
+
+Lemma ord_propagate a e es h o lt :
+  NoDup (map fst h) -> (forall j y, In (j, y) h -> a <= j) -> held_at h a = Some e ->
+  ord_ok es h o lt -> ord_ok (e :: es) (unhold h a) o lt.
+Proof.
+  intros Hnd Hge Hat [H1 H2 H3 H4 H5 H6 H7 H8 H9]. apply held_at_In in Hat.
+  assert (Hgt : forall j y, In (j, y) (unhold h a) -> a < j).
+  { intros j y Hin. pose proof (unhold_neq _ _ _ _ Hnd Hin). apply unhold_In in Hin. apply Hge in Hin. lia. }
+  split; auto.
+  - intros i x j y Hx Hy. apply unhold_In in Hx, Hy. eauto.
+  - rewrite oseqs_cons. destruct (ordered e) eqn:Hoe; [|exact H2]. constructor; [exact H2|].
+    apply Forall_oseqs. intros x Hx Hox. eapply H3; eauto.
+  - intros j y x Hy [<-|Hx] Hoy Hox.
+    + pose proof (Hgt _ _ Hy). apply unhold_In in Hy. eapply H1; eauto.
+    + apply unhold_In in Hy. eauto.
+  - intros z j y Hz Hy. apply unhold_In in Hy. eauto.
+  - intros z x Hz [<-|Hx] Hoz Hox; eauto.
+  - intros x [<-|Hx] Hox; eauto.
+  - intros j y Hy. apply unhold_In in Hy. eauto.
+Qed.
+
+Lemma ord_hold a x es h o lt :
+  (forall j y, In (j, y) h -> a < j) -> ord_ok (x :: es) h o lt -> ord_ok es ((a, x) :: h) o lt.
+Proof.
+  intros Hgt Hok. pose proof (ord_head_lt _ _ _ _ _ Hok) as Hhead. pose proof (ord_pop _ _ _ _ _ Hok) as Hpop.
+  destruct Hok as [H1 H2 H3 H4 H5 H6 H7 H8 H9]. destruct Hpop as [_ P2 P3 _ P5 _ _ P8 _].
+  split; auto.
+  - intros i x1 j y [Hx|Hx] [Hy|Hy] Hox Hoy Hij.
+    + inversion Hx; inversion Hy; subst. lia.
+    + inversion Hx; subst. eapply H3; eauto. left; reflexivity.
+    + inversion Hy; subst. apply Hgt in Hx. lia.
+    + eauto.
+  - intros j y x' [Hy|Hy] Hx Hoy Hox; [inversion Hy; subst; auto|eauto].
+  - intros z j y Hz [Hy|Hy] Hoz Hoy; [inversion Hy; subst|eauto]. eapply H5; eauto. left; reflexivity.
+  - intros j y [Hy|Hy] Hoy; [inversion Hy; subst|eauto]. apply H8; [left; reflexivity|assumption].
+Qed.
+
+Lemma ord_out x es o lt : ord_ok (x :: es) [] o lt -> ord_ok es [] (x :: o) lt.
+Proof.
+  intros Hok. pose proof (ord_head_lt _ _ _ _ _ Hok) as Hhead. pose proof (ord_pop _ _ _ _ _ Hok) as Hpop.
+  destruct Hok as [H1 H2 H3 H4 H5 H6 H7 H8 H9]. destruct Hpop as [_ P2 P3 _ P5 _ _ P8 _].
+  split; auto.
+  - intros z j y _ [].
+  - intros z x' [<-|Hz] Hx Hoz Hox; eauto.
+  - rewrite oseqs_cons. destruct (ordered x) eqn:Hox; [|exact H6]. constructor; [exact H6|].
+    apply Forall_oseqs. intros z Hz Hoz. assert (pseq z < pseq x); [|lia]. eapply H5; eauto. left; reflexivity.
+  - intros z [<-|Hz] Hoz; [|eauto]. apply H8; [left; reflexivity|assumption].
+Qed.
+
+Definition ord_st (s : pst) : Prop := ord_ok (map fev (stack s)) (held s) (outs s) (lasttaken s).
+
+Lemma ord_init n : ord_st (pinit n).
+Proof. split; cbn; try constructor; try (intros; contradiction). Qed.
+
+Lemma unordered_kind e : pkind e = 1 \/ pkind e = 3 -> ordered e = false.
+Proof. unfold ordered. intros [H|H]; rewrite H; reflexivity. Qed.
+
+Lemma ord_step s l s' : struct_ok s -> ord_st s -> pstep s l = Some s' -> ord_st s'.
+Proof.
+  intros [Hrange Hnd Hfr Hst] Hord Hstep. unfold ord_st in *.
+  destruct s as [n st h lt o d c]. proj_simpl.
+  destruct l as [e start|e a busy|e next|parent k|e idx|e a r|e]; pstep_inv Hstep; bnorm.
+  - (* PTake time-out *) apply ord_push_unordered; [apply unordered_kind; right; lia|exact Hord].
+  - (* PTake *) apply (ord_take e h o lt); [lia|exact Hord].
+  - (* PTake, no action *) apply (ord_take e h o lt); [lia|exact Hord].
+  - (* PDo *) exact Hord.
+  - (* PPropagate *)
+    inversion Hfr as [|? ? Hf Hfr']; subst.
+    assert (Hne : fph f <> MustOut) by congruence.
+    destruct Hf as [Hf1 _]. destruct (Hf1 Hne) as [Hfr0 Hfj].
+    match goal with H : pev_eqb _ _ = true |- _ => apply pev_eqb_eq in H; subst end.
+    replace (map fev ((if next <? n then {| fev := p; fidx := next; fph := BeforeDo |}
+                       else {| fev := p; fidx := next - 1; fph := MustOut |}) :: f :: l))
+      with (p :: fev f :: map fev l) by (destruct (next <? n); reflexivity).
+    apply ord_propagate; auto. intros j y Hin. apply Hfj in Hin. lia.
+  - (* PSpawn *) exact Hord.
+  - (* PPush *)
+    replace (map fev ((if idx <? n then {| fev := e; fidx := idx; fph := BeforeDo |}
+                       else {| fev := e; fidx := idx - 1; fph := MustOut |}) :: f :: l))
+      with (e :: fev f :: map fev l) by (destruct (idx <? n); reflexivity).
+    apply ord_push_unordered; [|exact Hord]. apply unordered_kind.
+    match goal with H : _ || _ = true |- _ => apply orb_true_iff in H; destruct H as [H|H] end; bnorm; [left|right]; lia.
+  - (* RPass *)
+    replace (map fev (after_pass (fev f) a n :: l)) with (fev f :: map fev l)
+      by (unfold after_pass; destruct (a + 1 <? n); reflexivity).
+    exact Hord.
+  - (* RCollapse *) eapply ord_pop; eauto.
+  - (* RDiscard *) eapply ord_pop; eauto.
+  - (* RHold *)
+    inversion Hfr as [|? ? Hf Hfr']; subst.
+    assert (Hne : fph f <> MustOut) by congruence.
+    destruct Hf as [Hf1 _]. destruct (Hf1 Hne) as [Hfr0 Hfj].
+    apply ord_hold; [|exact Hord].
+    intros j y Hin. pose proof (Hfj _ _ Hin).
+    assert (j <> fidx f); [|lia]. intros ->.
+    destruct (held_at h (fidx f)) eqn:Eh; [discriminate|]. eapply held_at_None; eauto.
+  - (* RBreak *) exact Hord.
+  - (* POut *)
+    inversion Hfr as [|? ? Hf Hfr']; subst. destruct Hf as [_ Hf2]. rewrite (Hf2 Heqp) in *.
+    apply ord_out; exact Hord.
+Qed.
+
+Record pinv (s : pst) : Prop := { pi_struct : struct_ok s; pi_ord : ord_st s }.
+
+Lemma pinv_reachable n ls s : prun (pinit n) ls = Some s -> pinv s.
+Proof.
+  apply (prun_invariant pinv).
+  - intros s0 l s1 [Hs Ho] Hstep. split; [eapply struct_step|eapply ord_step]; eauto.
+  - split; [apply struct_init|apply ord_init].
+Qed.
+
+(* from newest-first and decreasing to oldest-first and increasing *)
+Lemma sorted_gt_rev l : StronglySorted Z.gt l -> StronglySorted Z.lt (rev l).
+Proof.
+  induction 1 as [|x l Hs IH Hall]; cbn [rev]; [constructor|].
+  assert (Hsnoc : forall l', StronglySorted Z.lt l' -> Forall (fun y => y < x) l' -> StronglySorted Z.lt (l' ++ [x])).
+  { induction 1 as [|y l' Hs' IH' Hall']; cbn [app]; intros Hf; [repeat constructor|].
+    inversion Hf; subst. constructor; [auto|]. apply Forall_app; split; [exact Hall'|]. constructor; [lia|constructor]. }
+  apply Hsnoc; [exact IH|]. apply Forall_rev. eapply Forall_impl; [|exact Hall]. cbn beta. intros; lia.
+Qed.
+
+Lemma filter_rev' {A} (p : A -> bool) l : filter p (rev l) = rev (filter p l).
+Proof.
+  induction l as [|x r IH]; cbn [rev filter]; [reflexivity|].
+  rewrite filter_app, IH. cbn [filter]. destruct (p x); cbn [rev]; [reflexivity|apply app_nil_r].
+Qed.
+
+Lemma outs_increasing n ls s : prun (pinit n) ls = Some s ->
+  increasing (map pseq (filter ordered (rev (outs s)))).
+Proof.
+  intros Hrun. destruct (pinv_reachable _ _ _ Hrun) as [_ Hord].
+  unfold increasing. rewrite filter_rev', map_rev. apply sorted_gt_rev. exact (oo_outs _ _ _ _ Hord).
+Qed.
